@@ -371,6 +371,7 @@ fn run_bw<V: Val>(c: &Case, out: &mut String) {
                 let mut h2 = FNV0;
                 fnv(&mut h2, &re);
                 writeln!(out, "RT {} {} {:016x} {}", consumed, u8::from(rest_ok), h2, u8::from(V::bw_eq(&pma, &other))).unwrap();
+                writeln!(out, "RSTATS {} {} {} {}", other.num_states(), other.verif_num_slots(), other.heap_bytes(), V::OUT_SIZE).unwrap();
                 if c.ops.contains('S') { bw_searches(&other, c, "R", out); }
             }
         }
@@ -622,6 +623,7 @@ fn run_cw<V: Val>(c: &Case, out: &mut String) {
                 let mut h2 = FNV0;
                 fnv(&mut h2, &re);
                 writeln!(out, "RT {} {} {:016x} {}", consumed, u8::from(rest_ok), h2, u8::from(V::cw_eq(&pma, &other))).unwrap();
+                writeln!(out, "RSTATS {} {} {} {}", other.num_states(), other.num_elements(), other.heap_bytes(), V::OUT_SIZE).unwrap();
                 if c.ops.contains('S') { cw_searches(&other, c, "R", out); }
             }
         }
